@@ -8,6 +8,7 @@
    uniformity of child kinds, non-emptiness. *)
 From Coq Require Import ZArith List Bool.
 From BT Require Import Model.RTree Model.TreeSpec Model.Check Model.CheckTree Proofs.CheckProofs.
+From BT Require Import Model.TreeRun Model.Chain Model.ChainRun Proofs.ChainCheckProofs.
 Import ListNotations.
 Open Scope Z_scope.
 
@@ -31,6 +32,27 @@ Theorem C18_accepts_api_trees : forall (V : Type) (ml mi : nat) (t : tree V),
   inv_stored (stored V t) /\ check_fn (stored V t) = true /\ pcheck_fn (stored V t) = true.
 Proof. exact CheckProofs.api_trees_accepted. Qed.
 Print Assumptions C18_accepts_api_trees.
+
+(* ... and that is the state the checkers really look at: with next and
+   firstbucket READ from the pointer heap of Model/Chain.v (written by the
+   code's own assignments: the C03_chain theorems), the stored state is the one above, so
+   both checkers accept the pointer state of every tree the API produces --
+   after every history of public calls *)
+Theorem C18_accepts_pointer_state : forall (ml mi : nat), (1 <= ml)%nat -> (2 <= mi)%nat ->
+  forall (V : Type) (t : tree V) (h : heap),
+  Inv V ml mi t -> chain_ok V h t ->
+  to_ph V h t = stored V t /\
+  inv_stored (to_ph V h t) /\ check_fn (to_ph V h t) = true /\ pcheck_fn (to_ph V h t) = true.
+Proof. exact ChainCheckProofs.pointer_state_accepted. Qed.
+Print Assumptions C18_accepts_pointer_state.
+
+Theorem C18_accepts_after_any_history : forall (ml mi : nat), (1 <= ml)%nat -> (2 <= mi)%nat ->
+  forall (vs ir : bool) (calls : list call),
+  let sp := api_run vs ir ml mi calls in
+  let p := to_ph Z (p_heap (snd sp)) (t_tree (fst (run vs ir ml mi init calls))) in
+  inv_stored p /\ check_fn p = true /\ pcheck_fn p = true.
+Proof. exact ChainCheckProofs.pointer_state_accepted_after_history. Qed.
+Print Assumptions C18_accepts_after_any_history.
 
 (* non-vacuity: a valid two-level state, and single corruptions of it that
    only one of the two tools catches *)
